@@ -399,10 +399,10 @@ def single_home(ctx, prog):
             if not callee_path(t).startswith("std::collections::HashMap::") or name not in ("insert", "remove", "clear", "retain", "drain", "entry", "get_mut", "iter_mut", "values_mut", "extend"):
                 continue
             n += 1
-            if re.search(r"router::graveyard::Graveyard::(save_state|save_metrics|retrieve)$", body.id):
+            if re.search(r"router::graveyard::Graveyard::(save_state|save_metrics|retrieve|update_group_cursor)$", body.id):
                 ctx.ok(rule, body.id, "graveyard.%s" % name, site=body.loc(t.get("sp")))
             else:
-                ctx.violation(rule, body.id, "graveyard.%s" % name, "the saved-session map is modified outside save_state / save_metrics / retrieve", site=body.loc(t.get("sp")))
+                ctx.violation(rule, body.id, "graveyard.%s" % name, "the saved-session map is modified outside save_state / save_metrics / retrieve / update_group_cursor", site=body.loc(t.get("sp")))
     ctx.floor(rule, "graveyard map mutations", n, 3)
     # retrieve() takes the session OUT of the graveyard: only the function that hands it to a new connection may call
     # it (a status query, a metrics tick, ... would silently end a persistent session)
